@@ -38,6 +38,9 @@ type Instance struct {
 	MaxPaths int
 	Known   []string // active known-finding ids
 	MaxSeconds float64
+	Relaxed  bool // floats as reals with rounding-error terms
+	RelaxedUF bool
+	Opaque    bool // structure-only float mode (implies the real-sorted encoding)
 	Concrete map[string]string // if set: run as a concrete interpreter with these inputs (translator validation)
 }
 
@@ -179,7 +182,7 @@ func (P *Program) runInstance(inst *Instance, sol *Solver) *InstanceResult {
 			prog: P.prog, sol: sol, prefix: prefix, globals: map[*ssa.Global]*Object{}, allow: map[*Object]bool{},
 			unwind: inst.Unwind, cases: inst.Case, harness: inst.Harness, budget: inst.Budget, stats: &res.Stats,
 			tokLitEq: map[string]Bool{}, tokOvfAx: map[int]bool{}, ufs: map[string]bool{}, stubs: stubs, timeoutMs: inst.Timeout, repoPrefix: repoMod,
-			known: map[string]bool{}, concrete: inst.Concrete, deadline: t0.Add(time.Duration(inst.MaxSeconds * float64(time.Second))),
+			known: map[string]bool{}, concrete: inst.Concrete, relaxed: (inst.Relaxed || inst.Opaque) && inst.Concrete == nil, relaxedUF: inst.RelaxedUF, opaque: inst.Opaque, deadline: t0.Add(time.Duration(inst.MaxSeconds * float64(time.Second))),
 		}
 		for _, k := range inst.Known {
 			e.known[k] = true
